@@ -62,7 +62,7 @@ impl Debug for ModuleFlags {
 impl From<u16> for ModuleFlags {
 	fn from(value: u16) -> Self {
 		ModuleFlags {
-			is_open:      value & 0x0010 != 0,
+			is_open:      value & 0x0020 != 0,
 			is_synthetic: value & 0x1000 != 0,
 			is_mandated:  value & 0x8000 != 0,
 		}
@@ -71,7 +71,7 @@ impl From<u16> for ModuleFlags {
 
 impl From<ModuleFlags> for u16 {
 	fn from(value: ModuleFlags) -> Self {
-		(if value.is_open      { 0x0010 } else { 0 }) |
+		(if value.is_open      { 0x0020 } else { 0 }) |
 		(if value.is_synthetic { 0x1000 } else { 0 }) |
 		(if value.is_mandated  { 0x8000 } else { 0 })
 	}
